@@ -17,6 +17,22 @@ such a species' mass-action equation with electrons; the oracle does not: relati
 reaction AS WRITTEN in the database text, dz from the charges written there.  run() asserts (vacuity) that every such
 species of each database was judged under each electrostatic model kind of the bound.
 
+Surfaces related to a reactant (modes "phase", "kin", "kinm"; `hist`): the defined sites of such a surface are
+sites-per-mole x the CURRENT moles of the related equilibrium phase / kinetic reactant, in every calculation in which the
+reactant takes part (EQUI() / KIN() of that calculation; in the initial surface calculation, where the reactant is absent,
+the moles the reactant is defined with: -m, which defaults to -m0).  Besides the single-run modes the lattice has
+ * "kinm": KINETICS with -m = mfrac x -m0 (0.4, 2.5): current and initial moles differ from the first calculation on;
+ * `hist` (a sequence over the keyword alphabet HIST, exhaustively to the depth of the bound): simulation 1 runs the
+   reaction (m moves away from m0) and SAVEs solution, surface (and phase assemblage; kinetics are kept by the engine);
+   then, per history element, one simulation that contains only that keyword - an unrelated SURFACE 2 / KINETICS 2 /
+   EQUILIBRIUM_PHASES 2, a *_MODIFY of the related surface / reactant that leaves the amounts alone, a *_MODIFY that
+   sets the reactant's moles (the sites have to follow), or nothing (control) - and one simulation that USEs the saved
+   solution, surface and reactant again and SAVEs again.  Every calculation of every using simulation is judged.
+ Site balance is judged on the explicit sum of the species AND on the engine's read-out SURF(site type, surface); a
+ failure of the species sum is fingerprinted "site-balance model= mode=<mode>[+history after=<keywords so far>]", a
+ failure of the read-out alone "site-balance SURF() ...".  run() asserts (vacuity) that related rows whose reactant
+ moved away from its defined moles and rows of later simulations of a history were judged.
+
 Relations (R1: exactly the statement's):
  (1) site balance: species of each site type sum to the defined sites (scaled by the related phase / kinetic reactant);
  (2) mass action of every surface species: log K(T) from the database text, reported log activities of the aqueous
@@ -239,6 +255,32 @@ CAPS = {"ccm1": 1.0, "ccm2": 0.2, "cdm": (1.0, 0.2), "cdm2": (0.85, 4.0), "cdmdo
 MODES = ["equil", "explicit", "phase", "kin"]
 REL_PHASE = "Fe(OH)3(a)"
 PHASE_MOLES = 1e-3
+# mode "kinm": KINETICS with -m different from -m0 (m = mfrac * m0): the sites follow the CURRENT moles m
+MFRACS = [0.4, 2.5]
+MOD_FRAC = 0.5                  # KINETICS_MODIFY -m / EQUILIBRIUM_PHASES_MODIFY -moles set the reactant to MOD_FRAC * PHASE_MOLES
+# multi-simulation histories (case["hist"] = sequence of these): simulation 1 runs the reaction and SAVEs solution, surface
+# (and the reactant); every history element is one simulation that contains ONLY the keyword below (no calculation), followed
+# by one simulation that USEs the saved solution / surface / reactant again (and SAVEs again).  "none" is the control.
+HIST = {
+    "kin": {
+        "none": "TITLE nothing\n",
+        "SURFACE": "SURFACE 2\n Hfo_wOH 0.001 600 1\n",
+        "KINETICS": "KINETICS 2\n Ferri\n -formula FeOOH 1\n -m0 1\n -steps 1\n",
+        "KINETICS_MODIFY": "KINETICS_MODIFY 1\n -bad_step_max 400\n",
+        "SURFACE_MODIFY": "SURFACE_MODIFY 1\n -ddl_viscosity 1\n",
+        "KINETICS_MODIFY-m": "KINETICS_MODIFY 1\n -component Ferri\n -m %r\n" % (MOD_FRAC * PHASE_MOLES),
+    },
+    "phase": {
+        "none": "TITLE nothing\n",
+        "SURFACE": "SURFACE 2\n Hfo_wOH 0.001 600 1\n",
+        "EQUILIBRIUM_PHASES": "EQUILIBRIUM_PHASES 2\n Calcite 0 0\n",
+        "EQUILIBRIUM_PHASES_MODIFY": "EQUILIBRIUM_PHASES_MODIFY 1\n -component %(phase)s\n -si 0\n",
+        "SURFACE_MODIFY": "SURFACE_MODIFY 1\n -ddl_viscosity 1\n",
+        "EQUILIBRIUM_PHASES_MODIFY-moles": "EQUILIBRIUM_PHASES_MODIFY 1\n -component %%(phase)s\n -moles %r\n" % (MOD_FRAC * PHASE_MOLES),
+    },
+}
+HIST["kinm"] = HIST["kin"]
+HIST["common"] = {k: v for k, v in HIST["kin"].items() if k in HIST["phase"]}       # none, SURFACE, SURFACE_MODIFY
 
 _db_cache = {}
 
@@ -312,6 +354,9 @@ def build_input(case):
     if mode == "kin":
         t.append("RATES\n Ferri\n -start\n 10 SAVE 2e-8 * TIME\n -end\n")
         t.append("KINETICS 1\n Ferri\n -formula FeOOH 1\n -m0 %r\n -steps 3600 in 2 steps\n" % PHASE_MOLES)
+    if mode == "kinm":
+        t.append("RATES\n Ferri\n -start\n 10 SAVE 2e-8 * TIME\n -end\n")
+        t.append("KINETICS 1\n Ferri\n -formula FeOOH 1\n -m %r\n -m0 %r\n -steps 3600 in 2 steps\n" % (case["mfrac"] * PHASE_MOLES, PHASE_MOLES))
     t.append("SURFACE 1\n")
     first = True
     for st, frac in SURFS[case["surf"]]:
@@ -321,7 +366,7 @@ def build_input(case):
             line = " %s %s equilibrium_phase %r" % (nm, relph, n / PHASE_MOLES)
             if first:
                 line += " %r" % (area * mass / PHASE_MOLES)
-        elif mode == "kin":
+        elif mode in ("kin", "kinm"):
             line = " %s Ferri kinetic_reactant %r" % (nm, n / PHASE_MOLES)
             if first:
                 line += " %r" % (area * mass / PHASE_MOLES)
@@ -336,7 +381,7 @@ def build_input(case):
     t.append(mopt)
     if mode != "explicit":
         t.append(" -equilibrate 1\n")
-    t.append("SELECTED_OUTPUT 1\n -reset false\n -state true\n -high_precision true\n")
+    t.append("SELECTED_OUTPUT 1\n -reset false\n -simulation true\n -state true\n -high_precision true\n")
     p = ["USER_PUNCH 1\n -headings mu eps_r tk water la_h2o relmoles\n"]
     ln = [10]
 
@@ -346,12 +391,14 @@ def build_input(case):
     rel = "0"
     if mode == "phase":
         rel = 'EQUI("%s")' % relph
-    elif mode == "kin":
+    elif mode in ("kin", "kinm"):
         rel = 'KIN("Ferri")'
     L('PUNCH MU, EPS_R, TK, TOT("water"), LA("H2O"), %s' % rel)
     for s in lay["surfaces"]:
         L('PUNCH ' + ", ".join('EDL("%s","%s")' % (k, s) for k in
                                 ("psi", "psi1", "psi2", "sigma", "sigma1", "sigma2", "charge", "charge1", "charge2", "water")))
+    # the engine's own read-out of the sites of each site type on its surface
+    L('PUNCH ' + ", ".join('SURF("%s","%s")' % (st, sdb.surface_name(st)) for st in lay["sites"]))
     for spn in lay["species"]:
         L('PUNCH MOL("%s"), LA("%s")' % (spn, spn))
     for r in lay["reactants"]:
@@ -372,6 +419,19 @@ def build_input(case):
     if case.get("ctol") is not None:
         # after SELECTED_OUTPUT: "-high_precision true" itself sets the tolerance to 1e-12 when it is read
         t.append("KNOBS\n -convergence_tolerance %r\n" % case["ctol"])
+    hist = case.get("hist")
+    if hist is not None:
+        # multi-simulation history: every element is a simulation with one keyword and no calculation, then a simulation
+        # that continues the reaction with the saved solution / surface and the (automatically saved) kinetic reactant
+        # resp. the saved phase assemblage
+        react = "kinetics" if mode in ("kin", "kinm") else "equilibrium_phases"
+        save = "SAVE solution 1\nSAVE surface 1\n" + ("SAVE equilibrium_phases 1\n" if mode == "phase" else "")
+        t.append(save)
+        for h in hist:
+            t.append("END\n")
+            t.append(HIST[mode][h] % {"phase": relph})
+            t.append("END\n")
+            t.append("USE solution 1\nUSE surface 1\nUSE %s 1\n" % react + save)
     t.append("END\n")
     return "".join(t)
 
@@ -389,6 +449,7 @@ def read_row(case, lay, cells):
     for s in lay["surfaces"]:
         o["edl"][s] = dict(zip(("psi", "psi1", "psi2", "sigma", "sigma1", "sigma2", "charge", "charge1", "charge2", "water"),
                                [nx() for _ in range(10)]))
+    o["surf"] = {st: nx() for st in lay["sites"]}
     o["mol"], o["la"] = {}, {}
     for spn in lay["species"]:
         o["mol"][spn] = nx()
@@ -413,7 +474,22 @@ def read_row(case, lay, cells):
     return o
 
 
-def judge(case, lay, o, tag, problems, diags, stats):
+def related_note(case, sites, scale):
+    if case["mode"] not in ("phase", "kin", "kinm"):
+        return ""
+    return " = %.17g sites per mole x %.17g mol of the related reactant" % (sites / PHASE_MOLES, scale * PHASE_MOLES)
+
+
+def mode_label(case, seg=0):
+    """Mode part of a site-balance fingerprint: for a multi-simulation history the keywords that preceded the judged
+    calculation are part of the mechanism (the control "none" is not named)."""
+    if case.get("hist") is None:
+        return case["mode"]
+    kws = sorted(set(case["hist"][:seg]) - {"none"})
+    return "%s+history after=%s" % (case["mode"], "+".join(kws) or "none")
+
+
+def judge(case, lay, o, tag, problems, diags, stats, seg=0):
     db = surfdb(dbname(case))
     dbtag = "" if dbname(case) == DEFAULT_DB else " db=%s" % dbname(case)
     sites0, area, mass = GEOMS[case["geom"]]
@@ -425,10 +501,21 @@ def judge(case, lay, o, tag, problems, diags, stats):
     # statement's relative tolerance is not decidable (module docstring); 0 on the reported-only default-tolerance lattice
     floor = 0.0 if case.get("diag") else float(case.get("ctol") or 1e-12)
     scale = 1.0
-    if mode in ("phase", "kin") and not tag.startswith("i_surf"):
-        # sites and area are proportional to the related reactant; in the initial surface calculation the reactant is
-        # not part of the calculation and the surface has the amounts given by the reactant's defined moles
-        scale = o["relmoles"] / PHASE_MOLES
+    mlabel = mode_label(case, seg)
+    if mode in ("phase", "kin", "kinm"):
+        if not tag.startswith("i_surf"):
+            # sites and area are proportional to the CURRENT moles of the related reactant (EQUI() / KIN() of this
+            # calculation)
+            scale = o["relmoles"] / PHASE_MOLES
+            stats["related_rows_n"] = stats.get("related_rows_n", 0) + 1
+            if abs(scale - 1.0) > 1e-6:
+                stats["related_rows_moved_n"] = stats.get("related_rows_moved_n", 0) + 1
+            if seg > 0:
+                stats["history_rows_n"] = stats.get("history_rows_n", 0) + 1
+        elif mode == "kinm":
+            # in the initial surface calculation the reactant is not part of the calculation and the surface has the
+            # amounts given by the reactant's defined current moles (-m; -m0 when -m is not given)
+            scale = case["mfrac"]
     A = area * mass * scale
     la = o["la"]
     for s in lay["surfaces"]:
@@ -465,13 +552,23 @@ def judge(case, lay, o, tag, problems, diags, stats):
                 # defined sites (= 0)" is decidable, on the scale of the sites the definition gives per mole of reactant
                 stats["vanished_n"] = stats.get("vanished_n", 0) + 1
                 if not (tot <= TOL * sites0 * frac):
-                    problems.append(("site-balance vanished-surface model=%s mode=%s" % (kind, mode),
+                    problems.append(("site-balance vanished-surface model=%s mode=%s" % (kind, mlabel),
                                      "%s: related reactant has 0 mol, yet species of site type %s sum to %.17g mol" % (tag, st, tot)))
                 continue
             stats["site"] = max(stats.get("site", 0.0), R.rel(tot, defined))
+            # the engine's own read-out of the same sum
+            sf = o["surf"][st]
+            stats["site-SURF()"] = max(stats.get("site-SURF()", 0.0), R.rel(sf, defined))
+            stats["site-SURF()_n"] = stats.get("site-SURF()_n", 0) + 1
             if not (abs(tot - defined) <= TOL * defined):
-                problems.append(("site-balance model=%s mode=%s" % (kind, mode),
-                                 "%s: species of site type %s sum to %.17g mol, defined sites %.17g mol (rel %.3g)" % (tag, st, tot, defined, R.rel(tot, defined))))
+                problems.append(("site-balance model=%s mode=%s" % (kind, mlabel),
+                                 "%s: species of site type %s sum to %.17g mol (SURF(\"%s\",\"%s\") = %.17g mol), defined sites %.17g mol (rel %.3g)%s" % (
+                                     tag, st, tot, st, s, sf, defined, R.rel(tot, defined), related_note(case, sites0 * frac, scale))))
+            elif not (abs(sf - defined) <= TOL * defined):
+                # only the read-out is off (a different mechanism than a wrong number of sites in the calculation)
+                problems.append(("site-balance SURF() model=%s mode=%s" % (kind, mlabel),
+                                 "%s: SURF(\"%s\",\"%s\") = %.17g mol, species sum and defined sites %.17g mol (rel %.3g)%s" % (
+                                     tag, st, s, sf, defined, R.rel(sf, defined), related_note(case, sites0 * frac, scale))))
             # ---- (2) mass action of every species of this site type
             master = db.masters[st]
             for sp in db.species_of_site(st):
@@ -621,18 +718,26 @@ def run_case(case):
     if completed:
         heads = r["heads"].get(1, [])
         rows = r["sel"].get(1, [])
-        if not heads or heads[0] != "state":
-            raise RuntimeError("selected output without state column: %r" % heads[:5])
+        if heads[:2] != ["sim", "state"]:
+            raise RuntimeError("selected output without sim, state columns: %r" % heads[:5])
+        sim0 = rows[0]["sim"] if rows else 0
+        segs = set()
         for k, row in enumerate(rows):
             st = row["state"]
             if st == "i_soln":
                 continue
-            cells = [row[h] for h in heads[1:]]
+            # simulations of a history: 1st = definition + reaction, then (keyword, continuation) pairs
+            dsim = row["sim"] - sim0
+            if dsim % 2:
+                raise RuntimeError("a calculation in a keyword-only simulation of the history (%s row %d)" % (st, k))
+            seg = dsim // 2
+            segs.add(seg)
+            cells = [row[h] for h in heads[2:]]
             o = read_row(case, lay, cells)
             if sum(o["mol"].values()) <= 0:
                 raise RuntimeError("surface calculation row without surface species (%s row %d)" % (st, k))
             tag = "%s#%d" % (st, k)
-            judge(case, lay, o, tag, problems, diags, stats)
+            judge(case, lay, o, tag, problems, diags, stats, seg)
             njudged += 1
             e = o["edl"][lay["surfaces"][0]]
             out_key.append((st, "%.6g" % e["psi"], "%.6g" % o["mu"]))
@@ -642,12 +747,14 @@ def run_case(case):
                           "species_mol": {k2: v for k2, v in list(o["mol"].items())[:4]}}
         if njudged == 0:
             raise RuntimeError("completed run without a judged surface calculation: %r" % case)
+        if segs != set(range(len(case.get("hist") or ()) + 1)):
+            raise RuntimeError("history segments judged %r: %r" % (sorted(segs), case))
     seen, uniq = set(), []
     for p in problems:
         if p[0] not in seen:
             seen.add(p[0])
             uniq.append(p)
-    info = {"model": case["model"], "mode": case["mode"], "nc": not completed, "stats": stats, "diag": bool(case.get("diag"))}
+    info = {"model": case["model"], "mode": case["mode"] + ("+history" if case.get("hist") is not None else ""), "nc": not completed, "stats": stats, "diag": bool(case.get("diag"))}
     if not completed:
         info["nc_msg"] = nc_message(r["err"] or "")
         info["nc_sample"] = {"case": case, "error": " ".join((r["err"] or "").split())[:240]}
@@ -701,6 +808,13 @@ def bounds(tier):
     out = []
     plain = [m for m in MODELS if MODELS[m][1] not in ("cdm", "cdmdl")]
     wq, mq = "wateq4f.dat", "minteq.v4.dat"
+
+    def hists(mode, depth):
+        """Every keyword sequence of length 1..depth over the history alphabet of the mode, shortest first."""
+        out = []
+        for n in range(1, depth + 1):
+            out += [list(h) for h in core.product(*([list(HIST[mode])] * n))]
+        return out
     if tier == "quick":
         d = dict(surf=surf, geom=[0], pH=PHS, I=IS, sorb=sorb, model=model, mode=MODES, T=[25.0], ctol=[CTOL])
         out.append(("25 C, one geometry", d))
@@ -710,6 +824,17 @@ def bounds(tier):
         out.append(("minteq.v4.dat, redox-active sorbates (totals + pe), reduced lattice",
                     dict(db=[mq], surf=["sw"], geom=[0], pH=[7.0, 5.0, 9.0], I=[1e-2, 1.0], pe=[8.0, 0.0], sorb=DBS[mq][0],
                          model=["ddl", "noedl", "ccm1"], mode=["equil", "explicit"], T=[25.0], ctol=[CTOL])))
+        out.append(("sites tied to a kinetic reactant with -m different from -m0",
+                    dict(surf=surf, geom=[0], pH=PHS, I=IS, sorb=["Zn", "CaSO4"], model=model, mode=["kinm"], mfrac=MFRACS, T=[25.0], ctol=[CTOL])))
+        out.append(("sites tied to a kinetic reactant: saved surface used again after a simulation with one keyword",
+                    dict(surf=surf, geom=[0], pH=[7.0, 5.0, 9.0], I=[1e-2, 1.0], sorb=["Zn"], model=model, mode=["kin"],
+                         hist=hists("kin", 1), T=[25.0], ctol=[CTOL])))
+        out.append(("sites tied to a kinetic reactant with -m different from -m0: saved surface used again after a simulation with one keyword",
+                    dict(surf=surf, geom=[0], pH=[5.0, 9.0], I=[1e-2], sorb=["Zn"], model=model, mode=["kinm"], mfrac=[MFRACS[0]],
+                         hist=hists("kinm", 1), T=[25.0], ctol=[CTOL])))
+        out.append(("sites tied to an equilibrium phase: saved surface and phase assemblage used again after a simulation with one keyword",
+                    dict(surf=surf, geom=[0], pH=[7.0, 5.0, 9.0], I=[1e-2, 1.0], sorb=["Zn"], model=model, mode=["phase"],
+                         hist=hists("phase", 1), T=[25.0], ctol=[CTOL])))
         out.append(("10 C and 60 C, reduced lattice", dict(small, T=[10.0, 60.0], ctol=[CTOL])))
         out.append(("default convergence tolerance (reported, not judged)", dict(small, T=[25.0], ctol=[1e-8], diag=[1])))
     else:
@@ -726,6 +851,20 @@ def bounds(tier):
                          model=["ddl", "noedl", "ccm1", "don"], mode=["equil", "kin"], T=[10.0, 60.0], ctol=[CTOL])))
         d = dict(surf=surf, geom=[0, 1], pH=PHS, I=IS, sorb=sorb, model=model, mode=MODES, T=[10.0, 60.0, 40.0], ctol=[CTOL])
         out.append(("10, 40 and 60 C, two geometries", d))
+        out.append(("sites tied to a kinetic reactant with -m different from -m0, three geometries",
+                    dict(surf=surf, geom=[0, 1, 2], pH=PHS, I=IS, sorb=sorb, model=model, mode=["kinm"], mfrac=MFRACS, T=[25.0], ctol=[CTOL])))
+        out.append(("sites tied to a kinetic reactant: saved surface used again after simulations with one keyword each, histories of 1 and 2 keywords",
+                    dict(surf=surf, geom=[0], pH=PHS, I=[1e-2, 1.0], sorb=["Zn"], model=model, mode=["kin"],
+                         hist=hists("kin", 2), T=[25.0], ctol=[CTOL])))
+        out.append(("sites tied to a kinetic reactant with -m different from -m0: histories of 1 and 2 keywords",
+                    dict(surf=surf, geom=[0], pH=[5.0, 9.0], I=[1e-2], sorb=["Zn"], model=model, mode=["kinm"], mfrac=MFRACS,
+                         hist=hists("kinm", 2), T=[25.0], ctol=[CTOL])))
+        out.append(("sites tied to an equilibrium phase: saved surface and phase assemblage used again, histories of 1 and 2 keywords",
+                    dict(surf=surf, geom=[0], pH=PHS, I=[1e-2, 1.0], sorb=["Zn"], model=model, mode=["phase"],
+                         hist=hists("phase", 2), T=[25.0], ctol=[CTOL])))
+        out.append(("histories of one keyword with other sorbates and a second geometry",
+                    dict(surf=surf, geom=[0, 1], pH=[5.0, 9.0], I=[1e-2, 1.0], sorb=["none", "CaSO4", "PO4"], model=model, mode=["kin", "phase"],
+                         hist=hists("common", 1), T=[25.0], ctol=[CTOL])))
         out.append(("default convergence tolerance (reported, not judged)",
                     dict(surf=surf, geom=[0], pH=PHS, I=IS, sorb=["none", "CaSO4"], model=model, mode=["equil", "kin"], T=[25.0], ctol=[1e-8], diag=[1])))
     return [(n, lattice(**d), d) for n, d in out]
@@ -813,7 +952,9 @@ def run(tier):
                                     "secondary_redox_master_species(database text)": sorted(surfdb(k).secondary)} for k, v in DBS.items()}}
     ev.extra["alphabet"] = {"surfaces": {k: [st for st, _ in v] for k, v in SURFS.items()}, "geometries(sites mol, m2/g, g)": GEOMS, "pH": PHS, "I": IS,
                             "sorbates": BASE_SORB, "models": {k: " ".join(v[0].split()) or "(default DDL)" for k, v in MODELS.items()},
-                            "capacitances": CAPS, "modes": MODES}
+                            "capacitances": CAPS, "modes": MODES + ["kinm (KINETICS -m = mfrac x -m0)"], "mfrac": MFRACS,
+                            "history keywords (one simulation each, between uses of the saved surface)":
+                                {m: {k: " ".join(v.split()) for k, v in HIST[m].items()} for m in ("kin", "phase")}}
     ev.extra["lattice_points"] = sum(len(cs) for _, cs, _ in bs)
     ev.extra["judged_runs_completed"] = ev.completed
     ev.extra["judged_runs_not_completed"] = judged - ev.completed
@@ -834,7 +975,8 @@ def run(tier):
         for k, (a, b) in ev.by_model.items():
             if a == 0:
                 raise SystemExit("HARNESS ERROR: no completed run for %s" % k)
-        for rel_n in ("ma_n", "gouy-chapman_n", "ccm_n", "cdmusic-plane0_n", "cdmusic-plane2-diffuse_n", "dl-balance_n", "cdmusic-multisite_n"):
+        for rel_n in ("ma_n", "gouy-chapman_n", "ccm_n", "cdmusic-plane0_n", "cdmusic-plane2-diffuse_n", "dl-balance_n", "cdmusic-multisite_n",
+                      "site-SURF()_n", "related_rows_moved_n", "history_rows_n"):
             if ev.counts.get(rel_n, 0) < 100:
                 raise SystemExit("HARNESS ERROR: relation %s evaluated %d times" % (rel_n, ev.counts.get(rel_n, 0)))
         # database dimension: every surface species of the bound's database whose database reaction contains a secondary
